@@ -1,5 +1,8 @@
 use arc_swap::ArcSwapOption;
-use std::sync::Arc;
+use std::sync::{
+    atomic::{AtomicBool, Ordering as AtomicOrdering},
+    Arc,
+};
 
 use crate::{
     utils::{
@@ -112,6 +115,7 @@ where
         let _for_each_fn_entered = for_each_fn_span.enter();
         let source: Arc<Source<T>> = source.into();
         let talkback = ArcSwapOption::from(None);
+        let ended = AtomicBool::new(false);
         call!(
             source,
             Message::Handshake(Arc::new(
@@ -131,6 +135,10 @@ where
                             },
                             Message::Data(data) => {
                                 f(data);
+                                // the source may have ended while `f` was running
+                                if ended.load(AtomicOrdering::Acquire) {
+                                    return;
+                                }
                                 let talkback = talkback.load();
                                 let talkback = talkback.as_ref().expect("source talkback not set");
                                 call!(talkback, Message::Pull, "to source: {message:?}");
@@ -138,8 +146,9 @@ where
                             Message::Pull => {
                                 panic!("source must not pull");
                             },
-                            Message::Error(_) => {},
-                            Message::Terminate => {},
+                            Message::Error(_) | Message::Terminate => {
+                                ended.store(true, AtomicOrdering::Release);
+                            },
                         }
                     }
                 }
